@@ -870,6 +870,10 @@ class OneToOne(dict):
             self[key] = default
         return self[key]
 
+    def __ior__(self, other):
+        self.update(other)
+        return self
+
     def update(self, dict_or_iterable, **kw):
         keys_vals = []
         if isinstance(dict_or_iterable, dict):
